@@ -86,3 +86,19 @@ func typedGet(obj interface{}) (val interface{}, panicked bool) {
 }
 
 type netConn = net.Conn
+
+// reflectField returns the named (possibly embedded) field of a struct pointer, or nil.
+func reflectField(obj interface{}, name string) interface{} {
+	v := reflect.ValueOf(obj)
+	for v.IsValid() && v.Kind() == reflect.Ptr && !v.IsNil() {
+		v = v.Elem()
+	}
+	if !v.IsValid() || v.Kind() != reflect.Struct {
+		return nil
+	}
+	f := v.FieldByName(name)
+	if !f.IsValid() || !f.CanInterface() {
+		return nil
+	}
+	return f.Interface()
+}
